@@ -286,14 +286,21 @@ func ruleMarkCount(c *Ctx, r *RuleResult, pkgRel string) {
 				first := false
 				if !guarded {
 					var L map[*ssa.BasicBlock]bool
-					for _, body := range loops {
+					var Lh *ssa.BasicBlock
+					for h, body := range loops {
 						if body[blk] && (L == nil || len(body) < len(L)) {
-							L = body
+							L, Lh = body, h
 						}
 					}
 					if why, ok := tSweep(P, loops, s.ia.Index, blk); ok || why != "" || true {
 						_ = why
-						idxPhi, isPhi := strip(s.ia.Index).(*ssa.Phi)
+						iv := strip(s.ia.Index)
+						if bo, isBo := iv.(*ssa.BinOp); isBo && (bo.Op == token.ADD || bo.Op == token.SUB) {
+							if _, isK := constInt(bo.Y); isK {
+								iv = strip(bo.X) // a range loop indexes with counter+1
+							}
+						}
+						idxPhi, isPhi := iv.(*ssa.Phi)
 						sweep := false
 						if isPhi {
 							if li, ok := unitCounter(P, loops, idxPhi); ok && L != nil && li.body[blk] {
@@ -311,6 +318,10 @@ func ruleMarkCount(c *Ctx, r *RuleResult, pkgRel string) {
 								}
 								ta := t.Addr.(*ssa.IndexAddr)
 								if !L[t.Block()] || P.poly(ta.Index).add(e, -1).key() != "" {
+									first = false
+								}
+								// another marking of the same cell earlier in the same trip round the loop
+								if k2, isK := constInt(t.Val); isK && k2 == K && Lh != nil && reaches(where[t], where[s.st], ipos{Lh, 0}) {
 									first = false
 								}
 							}
